@@ -157,27 +157,95 @@ def run(prog, rep, tier):
     # export_nexthop
     nv = view(prog, prog.one(r"rustybgpd::event::export::PeerExportContext::export_nexthop"))
     r1.analysed(nv.name)
-    nb = branches(nv)
-    keep, selfnh = set(), set()
-    for b in sorted(nv.live):
-        ro = None
-        for g, l, h in flat_guards(nv, b, nb):
-            if g[0] == "discr" and g[2] and g[2].endswith("PeerRole"):
-                ro = l
-        if ro is None or len(ro) >= 5:
+    # decision table over the entry->return paths: for a peer-learned route (is_local false) that has a stored next hop, the
+    # value left in *nexthop is the stored one for RsClient / Ibgp / IbgpRrClient and the local address for Ebgp / ConfedEbgp.
+    # (match on a tuple, guard clauses, let-else: all the same table)
+    from ..paths import enumerate_paths, PathLimit
+    ROLES = {"RsClient", "Ibgp", "IbgpRrClient", "ConfedEbgp", "Ebgp"}
+    nh_name, loc_name = nv.local_name.get(2), nv.local_name.get(4)
+    try:
+        npaths = enumerate_paths(nv, Renderer(nv, depth=12), max_paths=20000)
+    except PathLimit:
+        npaths = None
+        r1.unanalysable("export_nexthop: too many paths", nv.loc())
+    keep, selfnh, probs = set(), set(), []
+    for conds, blocks, env in (npaths or []):
+        has_nh = is_loc = None
+        roles = set(ROLES)
+        for br, labels in conds:
+            e, lab = br.expr, set(labels)
+            if e[0] == "discr" and e[2] and e[2].endswith("PeerRole") and "else" not in lab:
+                roles &= lab
+            elif e[0] == "discr" and nh_name in expr_vars(e) and lab <= {"Some", "None"} and len(lab) == 1 and not expr_calls(e):
+                has_nh = (lab == {"Some"}) if has_nh is None else has_nh
+            elif e[0] == "var" and e[1] == loc_name and len(lab) == 1:
+                is_loc = (lab == {"true"}) if is_loc is None else is_loc
+        if has_nh is not True or is_loc is True or not roles:
             continue
-        for s in nv.blocks[b]["s"]:
-            rv = s.get("rv")
-            if rv and rv["r"] == "agg" and rv.get("k") == "adt" and rv["v"] == "Some":
-                e = Renderer(nv, depth=8).operand(rv["fields"][0], 8)
-                if any(isinstance(x, tuple) and x and x[0] == "call" for x in walk(e)) and "nh" not in expr_vars(e):
-                    selfnh |= set(ro)
-                elif "nh" in expr_vars(e):
-                    keep |= set(ro)
-    if keep == {"RsClient", "Ibgp", "IbgpRrClient"} and selfnh == {"ConfedEbgp", "Ebgp"}:
-        r1.ok("export_nexthop: peer-learned next hop kept for RsClient/Ibgp/IbgpRrClient, self for Ebgp/ConfedEbgp")
-    else:
-        r1.fail(nv.name, "nexthop-matrix", "next-hop rule by role: unchanged for %s, self for %s (want unchanged {Ibgp, IbgpRrClient, RsClient}, self {Ebgp, ConfedEbgp})" % (sorted(keep), sorted(selfnh)), nv.loc())
+        # last write to *nexthop on this path
+        pos = {b: i for i, b in enumerate(blocks)}
+        act = "keep"
+        last = None
+        for b in blocks:
+            for s_ in nv.blocks[b]["s"]:
+                if "rv" in s_ and s_["p"]["l"] == 2 and s_["p"].get("p") == ["*"]:
+                    last = s_
+        if last is not None:
+            # follow the value to its definition on this path
+            rv_ = last["rv"]
+            hops = 0
+            while hops < 8:
+                hops += 1
+                if rv_["r"] == "use":
+                    q = rv_["o"].get("c") or rv_["o"].get("m")
+                    if q is None:
+                        break
+                    if q["l"] == 2:
+                        act = "keep"
+                        break
+                    ds = [d for d in nv.defs().get(q["l"], []) if d[0] in pos]
+                    if not ds:
+                        break
+                    bi2, si2, st2 = max(ds, key=lambda d: pos[d[0]])
+                    if si2 == "t":
+                        act = "self"
+                        break
+                    rv_ = st2["rv"]
+                    continue
+                if rv_["r"] == "agg" and rv_.get("v") == "Some":
+                    fo = rv_["fields"][0]
+                    q = fo.get("c") or fo.get("m")
+                    if q is None:
+                        act = "?"
+                        break
+                    if q["l"] == 2:
+                        act = "keep"
+                        break
+                    ds = [d for d in nv.defs().get(q["l"], []) if d[0] in pos]
+                    if not ds:
+                        act = "?"
+                        break
+                    bi2, si2, st2 = max(ds, key=lambda d: pos[d[0]])
+                    if si2 == "t":
+                        act = "self"          # the value of a call: the `local()` closure / helper building the local address
+                        break
+                    rv_ = st2["rv"]
+                    continue
+                if rv_["r"] == "agg" and rv_.get("v") == "None":
+                    act = "none"
+                break
+        if act == "self":
+            selfnh |= roles
+        elif act == "keep":
+            keep |= roles
+        else:
+            probs.append((sorted(roles), act))
+    if npaths is not None:
+        if keep == {"RsClient", "Ibgp", "IbgpRrClient"} and selfnh == {"ConfedEbgp", "Ebgp"} and not probs:
+            r1.ok("export_nexthop: peer-learned next hop kept for RsClient/Ibgp/IbgpRrClient, self for Ebgp/ConfedEbgp")
+        else:
+            r1.fail(nv.name, "nexthop-matrix", "next-hop rule by role: unchanged for %s, self for %s%s (want unchanged {Ibgp, IbgpRrClient, RsClient}, self {Ebgp, ConfedEbgp})"
+                    % (sorted(keep), sorted(selfnh), (", unreadable: %s" % probs[:2]) if probs else ""), nv.loc())
 
     r2 = rep.rule("R09.2", "filters and rewrites on every emission path; suppress predicates have the stated truth tables")
     check_emit(prog, r2)
@@ -254,44 +322,56 @@ def check_emit(prog, r):
                     r.ok("%s guarded by %s" % (callee, ", ".join(need)))
         if n < 2:
             r.unanalysable("%s: %d call sites in process_nlri_change (want one per arm)" % (callee, n), fv.loc())
-    # truth tables of the suppress predicates
-    iv = view(prog, prog.one(r"rustybgpd::event::export::ibgp_split_horizon_suppress"))
-    r.analysed(iv.name)
-    rets = {}
-    rend = Renderer(iv, depth=10)
-    for bi, si, s in iv.defs().get(0, []):
-        if bi not in iv.live:
-            continue
-        e = rend.call_expr(s, 10, bi) if si == "t" else rend.rvalue(s["rv"], 10)
-        gs = flat_guards(iv, bi)
-        rets[bi] = (e, gs)
-    ok_role = ok_learn = ok_plain = ok_rr = False
-    for bi, (e, gs) in rets.items():
-        txt = " & ".join(show(g, 80) + ":" + "|".join(sorted(l)) for g, l, h in gs)
-        is_false = e[0] == "const" and e[1] == 0
-        is_true = e[0] == "const" and e[1] == 1
-        if is_false and any(g[0] == "discr" and g[2] and g[2].endswith("PeerRole") and not (set(l) & {"Ibgp", "IbgpRrClient"}) for g, l, h in gs):
-            ok_role = True
-        if is_false and any(h == "not" and g[0] == "matches" and any(x[0] == "discr" and x[2] and x[2].endswith("PeerRole") and set(ls) <= {"Ibgp", "IbgpRrClient"} for x, ls in g[1]) for g, l, h in gs):
-            ok_role = True
-        if is_false and "is_ibgp_learned" in txt and ":false" in txt:
-            ok_learn = True
-        if is_true and any(g[0] == "discr" and "cluster_id" in expr_vars(g) and l == {"None"} for g, l, h in gs):
-            ok_plain = True
-        if not (is_true or is_false) and any(g[0] == "discr" and "cluster_id" in expr_vars(g) and l == {"Some"} for g, l, h in gs):
-            s_ = show(e, 200)
-            if "is_rr_client" in s_ or "dest_role" in s_:
-                ok_rr = True
-    # the RR-mode result is usually a multi-def bool (&&): accept if is_rr_client is consulted under Some
-    toks = fn_tokens(prog, iv.key, depth=0)
-    if not ok_rr and any(t.endswith("Source::is_rr_client") for t in toks if t.startswith("call:")):
-        ok_rr = True
-    for nm, ok in (("only iBGP receivers are subject to split horizon", ok_role), ("only iBGP-learned paths are suppressed", ok_learn),
-                   ("plain iBGP (no cluster id): suppressed", ok_plain), ("route reflector: client status consulted", ok_rr)):
-        if ok:
-            r.ok("ibgp_split_horizon_suppress: " + nm)
+    # truth tables of the suppress predicates (analysis/predicates.py)
+    from .. import predicates
+    ROLES = ["RsClient", "Ibgp", "IbgpRrClient", "ConfedEbgp", "Ebgp"]
+    ik = prog.one(r"rustybgpd::event::export::ibgp_split_horizon_suppress")
+    r.analysed(prog.name(ik))
+
+    def cls_sh(e, labels, fvx):
+        lab = set(labels)
+        calls = expr_calls(e)
+        if e[0] == "discr" and e[2] and e[2].endswith("PeerRole") and "else" not in lab:
+            return ("dest", frozenset(lab))
+        if e[0] == "call" and re.search(r"PartialEq(>)?::(eq|ne)$", e[1]) and "PeerRole" in (e[5] or "") and len(lab) == 1 and lab <= {"true", "false"}:
+            c = [x[3] for x in walk(e) if isinstance(x, tuple) and x and x[0] == "const" and x[3] in ROLES]
+            c += [x[2] for x in walk(e) if isinstance(x, tuple) and x and x[0] == "agg" and x[2] in ROLES]
+            if len(c) == 1:
+                same = e[1].endswith("::eq") == (lab == {"true"})
+                return ("dest", frozenset({c[0]}) if same else frozenset(set(ROLES) - {c[0]}))
+        if len(lab) == 1 and lab <= {"true", "false"}:
+            t_ = lab == {"true"}
+            if e[0] == "call" and e[1].endswith("is_ibgp_learned"):
+                return ("ibgp_learned", t_)
+            if e[0] == "call" and e[1].endswith("Source::is_rr_client"):
+                return ("from_client", t_)
+            if e[0] == "call" and re.search(r"Option::<T>::is_(some|none)$", e[1]) and "Ipv4Addr" in (e[4] or "") + (e[5] or ""):
+                return ("reflector", t_ == e[1].endswith("is_some"))
+        if e[0] == "discr" and e[2] and e[2].endswith("Option") and lab <= {"Some", "None"} and len(lab) == 1 and not calls:
+            return ("reflector", lab == {"Some"})
+        return None
+    rws, iv = predicates.rows(prog, ik, cls_sh)
+    uni = {"dest": ROLES, "ibgp_learned": [False, True], "reflector": [False, True], "from_client": [False, True]}
+    spec_sh = lambda v: v["dest"] in ("Ibgp", "IbgpRrClient") and v["ibgp_learned"] and ((not v["reflector"]) or ((not v["from_client"]) and v["dest"] == "Ibgp"))
+    if rws is None:
+        r.unanalysable("ibgp_split_horizon_suppress: too many paths", iv.loc())
+    else:
+        unk = sorted({u for f_, res_, us in rws for u in us})
+        bad = predicates.counterexamples(rws, uni, spec_sh)
+        if unk:
+            r.unanalysable("ibgp_split_horizon_suppress: conditions not understood: %s" % [u[0] for u in unk][:3], iv.loc())
+        elif bad:
+            kind, v, res_ = bad[0]
+            if kind != "mismatch":
+                r.unanalysable("ibgp_split_horizon_suppress: a path's result could not be read", iv.loc())
+            else:
+                clause = ("only-iBGP-receivers-are-subject-" if v["dest"] not in ("Ibgp", "IbgpRrClient") else
+                          "only-iBGP-learned-paths-are-supp" if not v["ibgp_learned"] else
+                          "plain-iBGP-(no-cluster-id)" if not v["reflector"] else "route-reflector")
+                r.fail(iv.name, "split-horizon:" + clause, "ibgp_split_horizon_suppress answers %s for receiver %s, iBGP-learned=%s, reflector=%s, from client=%s (want: suppress iBGP-learned paths "
+                       "towards iBGP receivers, except on a reflector where only non-client -> non-client is suppressed)" % (res_, v["dest"], v["ibgp_learned"], v["reflector"], v["from_client"]), iv.loc())
         else:
-            r.fail(iv.name, "split-horizon:" + nm.split(":")[0].replace(" ", "-")[:32], "ibgp_split_horizon_suppress lost the clause: " + nm, iv.loc())
+            r.ok("ibgp_split_horizon_suppress: truth table over (receiver role, iBGP-learned, reflector, from client) equals the stated rule (%d paths)" % len(rws))
     rv_ = view(prog, prog.one(r"rustybgpd::event::export::rs_isolation_suppress"))
     r.analysed(rv_.name)
     e = Renderer(rv_, depth=12).local(0, 12)
@@ -334,24 +414,69 @@ def check_inbound(prog, r):
             r.ok("is_as_loop(local_asn, confederation_id)")
         else:
             r.fail(prog.name(rs), "as-loop-args", "is_as_loop is not given (local AS, confederation id)", fv.loc(lo[0][0]))
-    # the predicate itself: the local (member) AS is always looked for, and the confederation identifier as well when set
-    lv = view(prog, prog.one(r"rustybgpd::event::export::is_as_loop"))
-    r.analysed(lv.name)
-    rend = Renderer(lv, depth=8)
-    counted = []
-    for b, t in lv.calls(re.compile(r"rustybgp_packet::bgp::Attribute::as_path_count$")):
-        who = set(expr_vars(rend.operand(t["args"][1], 8)))
-        gs = flat_guards(lv, b)
-        cond = sorted({v for g, l, h in gs for v in expr_vars(g) if v in ("local_asn", "confederation_id")})
-        counted.append((who, cond))
-    local_uncond = any(w == {"local_asn"} and not c for w, c in counted)
-    confed = any(w == {"confederation_id"} for w, c in counted)
-    if local_uncond and confed:
-        r.ok("is_as_loop: counts local_asn unconditionally and confederation_id when configured")
+    # the predicate itself, as a truth table over its paths (analysis/predicates.py): true iff an AS_PATH is present and it
+    # contains the local (member) AS, or a confederation identifier is configured, differs from the local AS and is contained
+    from .. import predicates
+    lk = prog.one(r"rustybgpd::event::export::is_as_loop")
+    r.analysed(prog.name(lk))
+
+    def _who(e, fvx):
+        ln, cn = fvx.local_name.get(2), fvx.local_name.get(3)
+        who = "?"
+        for x in walk(e):
+            if isinstance(x, tuple) and x and x[0] == "call" and x[1].endswith("Attribute::as_path_count") and len(x[2]) > 1:
+                vs = set(expr_vars(x[2][1]))
+                who = "l" if vs == {ln} else ("c" if vs == {cn} else "?")
+        return who
+
+    def cls_loop(e, labels, fvx):
+        ln, cn = fvx.local_name.get(2), fvx.local_name.get(3)
+        lab = set(labels)
+        calls = expr_calls(e)
+        if e[0] == "discr" and any(c.endswith("Attribute::as_path_count") for c in calls) and lab <= {"Ok", "Err"} and len(lab) == 1:
+            return ("ok_" + _who(e, fvx), lab == {"Ok"})
+        if e[0] == "discr" and any(c.endswith("Iterator::find") or c.endswith("Iterator::position") for c in calls) and lab <= {"Some", "None"} and len(lab) == 1:
+            return ("has_aspath", lab == {"Some"})
+        if e[0] == "call" and re.search(r"Option::<T>::is_(some|none)$", e[1]) and any(c.endswith("Iterator::find") for c in calls) and len(lab) == 1:
+            return ("has_aspath", (lab == {"true"}) == e[1].endswith("is_some"))
+        if e[0] == "call" and re.search(r"Result::<T, E>::is_(ok|err)$", e[1]) and any(c.endswith("Attribute::as_path_count") for c in calls) and len(lab) == 1:
+            return ("ok_" + _who(e, fvx), (lab == {"true"}) == e[1].endswith("is_ok"))
+        if e[0] == "bin" and e[1] in ("Gt", "Ne", "Eq", "Ge", "Lt", "Le") and len(lab) == 1 and lab <= {"true", "false"}:
+            t_ = lab == {"true"}
+            consts = [x[1] for x in (e[2], e[3]) if isinstance(x, tuple) and x and x[0] == "const"]
+            if any(c.endswith("Attribute::as_path_count") for c in calls):
+                if e[1] in ("Gt", "Ne") and consts == [0]:
+                    return ("pos_" + _who(e, fvx), t_)
+                if e[1] == "Eq" and consts == [0]:
+                    return ("pos_" + _who(e, fvx), not t_)
+                if e[1] == "Ge" and consts == [1]:
+                    return ("pos_" + _who(e, fvx), t_)
+                return None
+            vs = set(expr_vars(e))
+            if vs == {cn} and consts == [0] and e[1] in ("Ne", "Eq", "Gt"):
+                return ("confed_nonzero", t_ if e[1] in ("Ne", "Gt") else not t_)
+            if vs == {cn, ln} and e[1] in ("Ne", "Eq"):
+                return ("confed_ne_local", t_ if e[1] == "Ne" else not t_)
+        return None
+    rws, lv = predicates.rows(prog, lk, cls_loop)
+    uni = ["has_aspath", "ok_l", "pos_l", "confed_nonzero", "confed_ne_local", "ok_c", "pos_c"]
+    spec = lambda v: v["has_aspath"] and ((v["ok_l"] and v["pos_l"]) or (v["confed_nonzero"] and v["confed_ne_local"] and v["ok_c"] and v["pos_c"]))
+    if rws is None:
+        r.unanalysable("is_as_loop: too many paths", lv.loc())
     else:
-        r.fail(lv.name, "as-loop-predicate:" + ("no-local-asn" if not local_uncond else "no-confederation-id"),
-               "is_as_loop %s: inside a confederation the AS_PATH must be checked for the member AS (always) and for the confederation identifier"
-               % ("does not look for the local AS on every path" if not local_uncond else "never looks for the confederation identifier"), lv.loc())
+        odd = sorted({a for f_, res_, unk in rws for a in f_ if a not in uni})
+        unk = sorted({u for f_, res_, us in rws for u in us})
+        bad = predicates.counterexamples(rws, uni + odd, spec)
+        if not bad and not unk:
+            r.ok("is_as_loop: true iff the AS_PATH contains the local AS, or a configured confederation identifier different from it (truth table over %d paths)" % len(rws))
+        elif not bad:
+            r.unanalysable("is_as_loop: conditions not understood: %s" % [u[0] for u in unk][:3], lv.loc())
+        else:
+            kind, v, res_ = bad[0]
+            missed_local = kind == "mismatch" and res_ is False and v.get("ok_l") and v.get("pos_l")
+            r.fail(lv.name, "as-loop-predicate:" + ("no-local-asn" if missed_local or odd else "no-confederation-id"),
+                   "is_as_loop answers %s for %s: inside a confederation the AS_PATH must be checked for the member AS (always) and for the confederation identifier "
+                   "(when configured and different)" % (res_, {k_: v_ for k_, v_ in sorted(v.items())} if kind == "mismatch" else v), lv.loc())
     # the CLUSTER_LIST loop check is keyed on the session's cluster_id: every iBGP session of a reflector needs one
     # (a looped route can come back through a non-client iBGP peer just as well as through a client)
     ak = prog.one(r"rustybgpd::event::accept_connection")
@@ -381,6 +506,100 @@ def check_inbound(prog, r):
         r.fail(prog.name(ak), "cluster-id-roles", "the session's cluster_id is set for roles %s: the CLUSTER_LIST loop check in rx_update only runs where it is set, so it must cover every iBGP "
                "session (Ibgp and IbgpRrClient) and no eBGP one" % sorted(some_roles), av.loc())
     ru = prog.one(r"rustybgpd::event::PeerSession::rx_update")
+    r.analysed(prog.name(ru))
+    # Reflection loop tests (RFC 4456 section 8) on the expanded body (is_some_and / closures in place): a test T is the branch
+    # that compares the ORIGINATOR_ID attribute's value, resp. searches the CLUSTER_LIST chunks.  Necessary: (a) T's "loop"
+    # outcome never reaches insert_route, (b) on every path to insert_route on which T's own preconditions hold (attribute
+    # present, cluster id configured, ..) T is evaluated.  The names of the locals and the spelling (flags, early returns,
+    # if-let chains) do not matter.
+    from ..util import view_deep
+    from ..cfg import bool_edges
+    uv = view_deep(prog, prog.body_key(ru))
+    ubrs = branches(uv, Renderer(uv, depth=14, through_names=True))
+    ins = [b for b, t in uv.calls(re.compile(r"rustybgpd::table_manager::TableManager::insert_route"))]
+    if not ins:
+        r.unanalysable("rx_update: no insert_route call", uv.loc())
+        return
+
+    def find_code(e):
+        """Attribute code constant tested by the closure of an Iterator::find / position inside `e`."""
+        for x in walk(e):
+            ck = None
+            if isinstance(x, tuple) and x and x[0] == "agg" and x[1] == "closure":
+                ck = x[2]
+            if isinstance(x, tuple) and x and x[0] == "call" and x[1].startswith("closure::"):
+                ck = x[1][len("closure::"):]
+            if ck and ck in prog.ix:
+                for c_ in fn_tokens(prog, ck, depth=0):
+                    m_ = re.fullmatch(r"const:.*Attribute::(ORIGINATOR_ID|CLUSTER_LIST)", c_)
+                    if m_:
+                        return m_.group(1)
+        return None
+    from ..paths import enumerate_paths, PathLimit
+    try:
+        upaths = enumerate_paths(uv, Renderer(uv, depth=14, through_names=True), max_paths=60000)
+    except PathLimit:
+        r.unanalysable("rx_update: too many paths for the reflection-loop table", uv.loc())
+        return
+
+    def cls(e, labels):
+        lab = set(labels)
+        if len(lab) != 1:
+            return None
+        code = find_code(e)
+        calls = expr_calls(e)
+        if code and e[0] == "bin" and e[1] in ("Eq", "Ne") and any(c.endswith("Attribute::value") for c in calls) and lab <= {"true", "false"}:
+            return ("loop:" + code, (e[1] == "Eq") == (lab == {"true"}))
+        if code and e[0] == "call" and e[1].endswith("Iterator::any") and lab <= {"true", "false"}:
+            return ("loop:" + code, lab == {"true"})
+        if code and e[0] == "discr" and lab <= {"Some", "None"} and any(c.endswith("Iterator::find") for c in calls) and not any(c.endswith("Attribute::binary") for c in calls):
+            return ("present:" + code, lab == {"Some"})
+        if code and e[0] == "call" and re.search(r"Option::<T>::is_(some|none)$", e[1]) and lab <= {"true", "false"} and not any(c.endswith("Attribute::binary") for c in calls):
+            return ("present:" + code, (lab == {"true"}) == e[1].endswith("is_some"))
+        if code == "CLUSTER_LIST" and e[0] == "discr" and any(c.endswith("Attribute::binary") for c in calls) and lab <= {"Some", "None"}:
+            return ("bytes:" + code, lab == {"Some"})
+        if e[0] == "discr" and "cluster_id" in expr_fields(e) and lab <= {"Some", "None"} and not calls:
+            return ("cid", lab == {"Some"})
+        if e[0] == "call" and re.search(r"Option::<T>::is_(some|none)$", e[1]) and "cluster_id" in expr_fields(e) and not [c for c in calls if c != e[1]]:
+            return ("cid", (lab == {"true"}) == e[1].endswith("is_some"))
+        return None
+    n_ins, probs, seen_tests = 0, {}, set()
+    for conds, blocks, env in upaths:
+        hit = [b for b in blocks if b in ins]
+        if not hit:
+            continue
+        n_ins += 1
+        upto = set(blocks[:blocks.index(hit[0])])
+        facts = {}
+        for br, labels in conds:
+            if br.bi not in upto:
+                continue
+            a = cls(br.expr, labels)
+            if a:
+                facts.setdefault(a[0], a[1])
+        seen_tests |= {k_ for k_ in facts if k_.startswith("loop:")}
+        if facts.get("loop:ORIGINATOR_ID") is True:
+            probs.setdefault("installed-although-originator-loop", facts)
+        if facts.get("loop:CLUSTER_LIST") is True:
+            probs.setdefault("installed-although-cluster-loop", facts)
+        if facts.get("present:ORIGINATOR_ID") is True and "loop:ORIGINATOR_ID" not in facts:
+            probs.setdefault("originator-test-skipped", facts)
+        if facts.get("cid") is True and facts.get("present:CLUSTER_LIST") is True and facts.get("bytes:CLUSTER_LIST", True) is True and "loop:CLUSTER_LIST" not in facts:
+            probs.setdefault("cluster-test-skipped", facts)
+    if n_ins == 0:
+        r.unanalysable("rx_update: no path reaches insert_route", uv.loc())
+    for code, what in (("ORIGINATOR_ID", "the ORIGINATOR_ID equals the local router id"), ("CLUSTER_LIST", "the CLUSTER_LIST contains the local cluster id")):
+        if "loop:" + code not in seen_tests and not probs:
+            probs.setdefault("no-test:" + code, {})
+    if probs:
+        k0 = sorted(probs)[0]
+        r.fail(prog.name(ru), "reflection-loop-check", "insert_route is reachable %s (%s): a route reflected back to this router is installed" %
+               ({"installed-although-originator-loop": "although the ORIGINATOR_ID equals the local router id", "installed-although-cluster-loop": "although the CLUSTER_LIST contains the local cluster id",
+                 "originator-test-skipped": "with an ORIGINATOR_ID present but never compared with the local router id", "cluster-test-skipped": "with a cluster id configured and a CLUSTER_LIST present that is never searched"}.get(k0, "without the %s test" % k0.split(":")[-1]),
+                sorted(probs[k0].items())), uv.loc(ins[0]))
+    else:
+        r.ok("rx_update: over %d paths to insert_route, none with ORIGINATOR_ID = local router id or the local cluster id in CLUSTER_LIST; both tests are evaluated whenever the attribute is present" % n_ins)
+    return
     uv = view(prog, prog.body_key(ru))
     r.analysed(prog.name(ru))
     ins = uv.calls(re.compile(r"rustybgpd::table_manager::TableManager::insert_route"))
